@@ -62,7 +62,8 @@ def program(g, i):
     gdecl = ldecl + [pdecl(p) for p in params] + (["const N: usize"] if constp else [])
     wh = ["%s: core::fmt::Debug" % p for p in params] if "where" in M else []
     attrs = []
-    if skip: attrs.append("skip_type_params(" + ", ".join(sorted(skip)) + ")")
+    rev = "revattr" in M
+    if skip: attrs.append("skip_type_params(" + ", ".join(sorted(skip, reverse=rev)) + ")")
     if "custom" in M:
         bs = ["%s: TypeInfo + 'static" % p for p in params if p not in skip]
         for t, p in fields:
@@ -70,7 +71,9 @@ def program(g, i):
             if t in NAMED: bs.append("%s::%s: TypeInfo + 'static" % (p, name))
             if t == "compactassoc": bs.append("%s::A: ::scale_info::scale::HasCompact" % p)
             if t == "compactp": bs.append("%s: ::scale_info::scale::HasCompact" % p)
-        attrs.append("bounds(" + ", ".join(dict.fromkeys(bs)) + ")")
+        bl = list(dict.fromkeys(bs))
+        attrs.append("bounds(" + ", ".join(reversed(bl) if rev else bl) + ")")
+    if rev: attrs.reverse()
     head = "#[derive(TypeInfo)]\n" + "".join("#[scale_info(%s)]\n" % a for a in attrs)
     gtxt = "<" + ", ".join(gdecl) + ">"
     w = (" where " + ", ".join(wh)) if wh else ""
